@@ -92,22 +92,30 @@ def check(tier):
             oracle_bad.append((s, r, "unclassified error"))
             continue
         acc, viable = g.earley(s)
+        # the language is the documented grammar AS DISAMBIGUATED (handles and operands are consumed greedily): the expected
+        # verdict and the first offending token are those of the recursive-descent reading; Earley cross-checks it
+        rd = D.dictated_tree(s, T)
+        if rd[0] == "ok" and not acc:
+            oracle_bad.append((s, r, "oracle inconsistency: the greedy reading accepts a non-sentence"))
+        if rd[0] != "ok" and not (rd[1] < len(viable) and viable[rd[1]]):
+            oracle_bad.append((s, r, "oracle inconsistency: the greedy reading fails after a prefix that is not viable"))
+        if acc and rd[0] != "ok":
+            dist["greedy_rejections"] = dist.get("greedy_rejections", 0) + 1
         if r[0] == 0:
             dist["accepted"] += 1
-            if not acc:
-                oracle_bad.append((s, r, "accepted but not a sentence of the documented grammar"))
+            if rd[0] != "ok":
+                oracle_bad.append((s, r, "accepted but not a sentence of the documented grammar as disambiguated"))
             cases.append((s, 0, 0))
             continue
         i = len(s) if r[1] == -1 else r[1]
         dist["error_at_end" if i == len(s) else "error_inside"] += 1
         cases.append((s, 1, i))
-        # oracle: s[:i] is a viable prefix of the documented grammar, s[:i+1] is not (or, at the end, s is not a sentence)
-        if acc:
-            oracle_bad.append((s, r, "rejected although it is a sentence of the documented grammar"))
-        elif not (i <= len(s) and viable[i] if i < len(viable) else False):
-            oracle_bad.append((s, r, "the tokens before the reported one are not a prefix of any specification"))
-        elif i < len(s) and (i + 1 < len(viable) and viable[i + 1]):
+        if rd[0] == "ok":
+            oracle_bad.append((s, r, "rejected although it is a sentence of the documented grammar as disambiguated"))
+        elif rd[1] > i:
             oracle_bad.append((s, r, "the reported token still admits a continuation (a later token is the first offending one)"))
+        elif rd[1] < i:
+            oracle_bad.append((s, r, "the tokens before the reported one are not a prefix of any specification (an earlier token is the first offending one)"))
     paths, offs = [], []
     shard = 1500
     for o in range(0, len(cases), shard):
